@@ -321,6 +321,30 @@ func (e *r2pPrinter) eval(st *r2pState, x ast.Expr) r2pTmpl {
 			if t, ok := st.tmpl[o]; ok {
 				return t
 			}
+			if v, ok := o.(*types.Var); ok && v.Pkg() != nil && v.Parent() == v.Pkg().Scope() && r2pIsString(v.Type()) {
+				// a package-level format / text with a constant initialiser
+				for _, f := range e.pkg.Syntax {
+					for _, d := range f.Decls {
+						gd, ok := d.(*ast.GenDecl)
+						if !ok {
+							continue
+						}
+						for _, sp := range gd.Specs {
+							vs, ok := sp.(*ast.ValueSpec)
+							if !ok {
+								continue
+							}
+							for i, n := range vs.Names {
+								if info.Defs[n] == o && i < len(vs.Values) {
+									if tv, ok := info.Types[vs.Values[i]]; ok && tv.Value != nil && tv.Value.Kind() == constant.String {
+										return r2pLit(constant.StringVal(tv.Value))
+									}
+								}
+							}
+						}
+					}
+				}
+			}
 			if k, ok := o.(*types.Const); ok && k.Val().Kind() == constant.String {
 				if s, err := strconv.Unquote(k.Val().ExactString()); err == nil {
 					return r2pLit(s)
@@ -400,16 +424,40 @@ func (e *r2pPrinter) evalCall(st *r2pState, call *ast.CallExpr) r2pTmpl {
 		}
 		return r2pCat(ts...)
 	}
-	switch full {
-	case "fmt.Sprintf":
-		if len(call.Args) == 0 {
+	// fmt.Sprintf and the printf-like wrappers of the module (`func render(format string, a ...any) string`)
+	fi := -1
+	if full == "fmt.Sprintf" {
+		fi = 0
+	} else if callee != nil && e.m.decls[callee] != nil {
+		if i, ok := r5pPrintfLike(e.c, e.m)[callee]; ok && r2pIsString(callee.Type().(*types.Signature).Results().At(0).Type()) {
+			fi = i
+		}
+	}
+	if fi >= 0 {
+		if len(call.Args) <= fi {
 			return nil
 		}
-		f := e.eval(st, call.Args[0])
-		if len(f) == 1 && f[0].hole == nil {
-			return e.format(st, f[0].lit, call.Args[1:])
+		f := e.eval(st, call.Args[fi])
+		// a format assembled from constant pieces (`"spawn " + format`), possibly chosen under a branch
+		var lit strings.Builder
+		var imp r2pTmpl
+		constant := len(f) > 0
+		for _, sg := range f {
+			switch {
+			case sg.imp:
+				imp = append(imp, sg)
+			case sg.hole == nil:
+				lit.WriteString(sg.lit)
+			default:
+				constant = false
+			}
+		}
+		if constant {
+			return r2pCat(e.format(st, lit.String(), call.Args[fi+1:]), imp)
 		}
 		return args(0)
+	}
+	switch full {
 	case "fmt.Sprint", "fmt.Sprintln":
 		return args(0).wrap("%v")
 	case "strings.Join":
@@ -633,6 +681,25 @@ func (e *r2pPrinter) onStmt(st *r2pState, s ast.Stmt) (*r2pState, bool) {
 			}
 		}
 	case *ast.ExprStmt:
+		// sort.Strings(parts), sort.Slice(xs, less), slices.Reverse(xs) …: the collected texts change their order (R-print-order)
+		if call, ok := x.X.(*ast.CallExpr); ok {
+			if callee := CalleeOf(e.info, call); callee != nil && callee.Pkg() != nil {
+				pp, nm := callee.Pkg().Path(), callee.Name()
+				if (pp == "sort" && (nm == "Sort" || nm == "Stable" || nm == "Slice" || nm == "SliceStable" || nm == "Strings" || nm == "Ints" || nm == "Float64s")) ||
+					(pp == "slices" && (strings.HasPrefix(nm, "Sort") || nm == "Reverse")) ||
+					((pp == "math/rand" || pp == "math/rand/v2") && nm == "Shuffle") {
+					for _, a := range call.Args {
+						if _, isFn := ast.Unparen(a).(*ast.FuncLit); isFn {
+							continue
+						}
+						for hp := range e.eval(st, a).holes() {
+							st.ctrl["reorder:"+hp] = true
+							st.trace = append(st.trace, fmt.Sprintf("%s.%s(%s) (line %d)", callee.Pkg().Name(), nm, exprStr(a), e.line(call.Pos())))
+						}
+					}
+				}
+			}
+		}
 		// builder.WriteString(x) and friends: the arguments are accumulated in the receiver local
 		if call, ok := x.X.(*ast.CallExpr); ok {
 			if se, ok := ast.Unparen(call.Fun).(*ast.SelectorExpr); ok {
@@ -686,8 +753,11 @@ type r2pMethodInfo struct {
 	sigs map[string]map[string]string // top-level field -> signature -> witness (template of a path)
 	// tails: trailing terminator (closing punctuation after the last hole: `;`, `}`, `)`, `]`) of the returned text -> witness
 	tails map[string]string
-	root  string   // name of the receiver
-	rets  []r2pRet // symbolic result of every return path
+	// reorder: list fields whose collected texts are sorted / reversed / shuffled before they are printed -> witness (R-print-order)
+	reorder map[string]string
+	consts  map[string]bool // complete constant texts the printer returns on some path (no holes)
+	root    string          // name of the receiver
+	rets    []r2pRet        // symbolic result of every return path
 	// frame: the delimiters every path of this printer starts and ends with ("{", "}"), "" when not uniform
 	frameOpen, frameClose string
 	// R-print-payload / R-print-bare-guard (rules_r3print_fmt.go)
@@ -1133,6 +1203,19 @@ func r2pPrintMethod(c *Ctx, m *travModel, mi *r2pMethodInfo) []Obligation {
 			}
 			// the skeleton (bracket contexts, trailing terminator) is computed after all printers have run: see r2pFinishSkeleton
 			mi.root = root
+			for hp := range holes {
+				if st.ctrl["reorder:"+hp] {
+					parts := strings.Split(hp, ".")
+					if len(parts) >= 2 && parts[0] == root {
+						if mi.reorder == nil {
+							mi.reorder = map[string]string{}
+						}
+						if _, ok := mi.reorder[parts[1]]; !ok {
+							mi.reorder[parts[1]] = fmt.Sprintf("path [%s] returning %s", st.traceStr(), t.String())
+						}
+					}
+				}
+			}
 			if len(mi.rets) < 4000 {
 				mi.rets = append(mi.rets, r2pRet{t: t, trace: st.traceStr()})
 			}
@@ -1375,6 +1458,18 @@ func r2pFinishSkeleton(m *travModel, res *r2pPrintResult) {
 					}
 				}
 				t = append(t, sg)
+			}
+			if len(r.t.holes()) == 0 {
+				var sb strings.Builder
+				for _, sg := range r.t {
+					if sg.hole == nil {
+						sb.WriteString(sg.lit)
+					}
+				}
+				if mi.consts == nil {
+					mi.consts = map[string]bool{}
+				}
+				mi.consts[sb.String()] = true
 			}
 			tail := r2pTail(t)
 			if _, ok := mi.tails[tail]; !ok {
